@@ -230,7 +230,24 @@ func runC18() procxResult {
 	expect[0]["ARGS"] = pipeEnv[0]["ARGS"]
 	expect[1]["ARGS"] = "pr:--process-args"
 	names = append(names, "ARGS")
+	// PATH is an environment variable like any other: the command a script names is the one the job's own PATH finds
+	toolDir, err := os.MkdirTemp("", "verif-c18-tools-")
+	if err != nil {
+		panic(err)
+	}
+	defer os.RemoveAll(toolDir)
+	for i, tag := range []string{"A", "B"} {
+		d := filepath.Join(toolDir, tag)
+		os.MkdirAll(d, 0o755)
+		os.WriteFile(filepath.Join(d, "verif-tool"), []byte("#!/bin/sh\nprintf 'I_TOOL=<<"+tag+">>;'\n"), 0o755)
+		if i == 0 {
+			pipeEnv[0]["PATH"] = d + ":" + os.Getenv("PATH")
+		} else {
+			taskEnv[1]["PATH"] = d + ":" + os.Getenv("PATH")
+		}
+	}
 	var script []string
+	script = append(script, "verif-tool", "verif-tool")
 	for _, n := range names {
 		script = append(script, fmt.Sprintf(`printf '%s=<<%%s>>;' "${%s-UNSET}"`, "I_"+n, n))
 	}
@@ -248,7 +265,7 @@ func runC18() procxResult {
 		return PipeCfg{Conc: 2, QL: -1, Graph: map[string][]string{"t": nil, "u": nil}, Env: pipeEnv[job], TaskEnv: map[string]map[string]string{"t": taskEnv[job]},
 			Script: map[string][]string{"t": script, "u": script2}}
 	}
-	tplScript := []string{`printf 'I_S=<<%s>>;' '{{ .s }}'`, `printf 'I_N=<<%s>>;' '{{ .n }}'`, `printf 'I_L=<<%s>>;' '{{ .l }}'`, `printf 'I_M=<<%s>>;' '{{ .m.k }}'`, `printf 'I_F=<<%s>>;' '{{ .f }}'`}
+	tplScript := []string{"cat <<'VERIF_EOF_S'\nI_S=<<{{ .s }}>>;\nVERIF_EOF_S", `printf 'I_N=<<%s>>;' '{{ .n }}'`, `printf 'I_L=<<%s>>;' '{{ .l }}'`, `printf 'I_M=<<%s>>;' '{{ .m.k }}'`, `printf 'I_F=<<%s>>;' '{{ .f }}'`}
 	defs := mkDefs(map[string]PipeCfg{"p1": mkPipe(0), "p2": mkPipe(1),
 		"tpl": {Conc: 2, QL: -1, Graph: graphOne, Script: map[string][]string{"a": tplScript}}})
 	pw := newProcWorld(defs, 0)
@@ -258,7 +275,8 @@ func runC18() procxResult {
 	if err1 != nil || err2 != nil {
 		panic(fmt.Sprint(err1, err2))
 	}
-	varsA := map[string]interface{}{"s": "string a", "n": 42, "l": []interface{}{"x", "y"}, "m": map[string]interface{}{"k": "deep a"}, "f": 1.5}
+	// (string values with the characters an HTML-aware template engine would escape)
+	varsA := map[string]interface{}{"s": "a&b<c>d\"e+f=g 'h' https://x.example/?q=1&r=2", "n": 42, "l": []interface{}{"x", "y"}, "m": map[string]interface{}{"k": "deep a"}, "f": 1.5}
 	varsB := map[string]interface{}{"s": "STRING B", "n": 7000000, "l": []interface{}{"z"}, "m": map[string]interface{}{"k": "deep b"}, "f": 0.1234567891}
 	t1, _ := pw.r.ScheduleAsync("tpl", prunner.ScheduleOpts{Variables: varsA})
 	t2, _ := pw.r.ScheduleAsync("tpl", prunner.ScheduleOpts{Variables: varsB})
@@ -276,6 +294,11 @@ func runC18() procxResult {
 		outT, _ := pw.output(j.ID, "t", "stdout")
 		outU, _ := pw.output(j.ID, "u", "stdout")
 		ft, fu := parseFrames(outT), parseFrames(outU)
+		res.Cases++
+		res.Distinct++
+		if want := []string{"A", "B"}[job]; ft["I_TOOL"] != want {
+			res.add("env-path-resolution", fmt.Sprintf("job %d: the command verif-tool exists in two directories and the job's own PATH (set at %s level) names directory %s first, but the one that ran printed %q", job, []string{"pipeline", "task"}[job], want, ft["I_TOOL"]))
+		}
 		for _, n := range names {
 			want := expect[job][n]
 			wantI, wantC := want, want+"\n"
